@@ -28,11 +28,12 @@ echo "## demo WITH the change (must fail)" >> $log
 (cd $WT && timeout 400 go test -count=1 -run "$rx" ./$pkg/ -timeout 300s) 2>&1 | tail -40 >> $log; with=${PIPESTATUS[0]}
 for f in $dst/*_test.go; do rm -f $WT/$pkg/$(basename $f); done
 echo "## existing suite WITH the change (must pass)" >> $log
-(cd $WT && timeout 1700 go test -mod=mod -vet=off -count=1 -timeout 25m ./... 2>&1 | grep -E "^(ok|FAIL|---|panic)" ) >> $log 2>&1
-suite=$(grep -c "^FAIL\|^--- FAIL\|^panic" $log)
+(cd $WT && timeout 1700 go test -mod=mod -vet=off -count=1 -timeout 25m ./... 2>&1 | grep -E "^(ok|FAIL|---|panic)" ) > $dst/suite.log 2>&1
+cat $dst/suite.log >> $log
+suite=$(grep -c "^FAIL\|^--- FAIL\|^panic" $dst/suite.log)
 # only flaky names tolerated
 flaky="TestBatchMessageAddedWithMultipleFlags|TestDeleteMailboxFromConnectorAlsoRemoveSubscriptionStatus|TestDeletionPool|TestDraftScenario|TestInvalidIMAPCommandDoesNotBlockStateUpdates|TestMailboxCreatedUpdate|TestMessageAddWithSameID|TestMessageCreatedIDLEUpdate|TestMessageCreatedNoopUpdate|TestMessageCreatedWithIgnoreMissingMailbox|TestMessageFlaggedUpdate|TestMessageRemovedUpdate|TestMessageRemovedUpdateRepeated|TestMessageSeenUpdate"
-hard=$(grep "^--- FAIL" $log | grep -vE "($flaky)" | grep -v "Demo" | wc -l)
+hard=$(grep "^--- FAIL\|^panic" $dst/suite.log | grep -vE "($flaky)" | wc -l)
 echo "RESULT without=$without build=$build with=$with suite_fail_lines=$suite hard_fail=$hard" >> $log
 ok=false; if [ $without -eq 0 ] && [ $build -eq 0 ] && [ $with -ne 0 ] && [ $hard -eq 0 ]; then ok=true; fi
 python3 - "$p" "$v" "$pkg" "$ok" "$without" "$with" "$hard" <<'PY'
